@@ -266,6 +266,19 @@ def call_np(I, name, args, kwargs, node, fr):
             x = args[0] if args else Top()
             axis = get_axis(args, kwargs, 2)
             return reduce_axes(I, x, axis, get_flag(kwargs, "keepdims"), node, "norm", result_elem="f")
+        if sub in ("inv", "pinv", "cholesky", "matrix_power"):
+            x = args[0] if args else Top()
+            if isinstance(x, Arr) and len(x.axes) >= 2:
+                return Arr(list(x.axes[:-2]) + [x.axes[-1], x.axes[-2]] if sub == "pinv" else x.axes, "f")
+            return Top("np.linalg." + sub)
+        if sub in ("det", "slogdet", "matrix_rank", "cond"):
+            return Num("f")
+        if sub == "solve":
+            a, b = (args + [Top(), Top()])[:2]
+            if isinstance(a, Arr) and isinstance(b, Arr) and len(a.axes) >= 2:
+                I.contract(a.axes[-2], b.axes[0] if len(b.axes) <= 2 else b.axes[-2], node, a, b)
+                return Arr([a.axes[-1]] + list(b.axes[1:]), "f")
+            return Top("np.linalg.solve")
         if sub in ("eigvals", "eigvalsh"):
             x = args[0] if args else Top()
             if isinstance(x, Arr) and len(x.axes) >= 2:
@@ -485,6 +498,135 @@ def call_np(I, name, args, kwargs, node, fr):
                 else:
                     I.broadcast(dst, src, node, opname="copyto", inplace=True)
         return NoneV()
+    # ---------------- wider numpy surface (so that rewrites and defects using them are judged rather than unknown)
+    if name in ("flip", "flipud", "fliplr", "roll"):
+        x = args[0] if args else Top()
+        if isinstance(x, Arr):
+            axis = get_axis(args, kwargs, 2 if name == "roll" else 1)
+            axes_ = range(len(x.axes)) if axis in (None,) else ([axis % len(x.axes)] if isinstance(axis, int) else [])
+            if name == "flipud":
+                axes_ = [0]
+            if name == "fliplr":
+                axes_ = [1]
+            for i in axes_:
+                I.usage(node, name, x.axes[i], "positional")
+            return Arr(x.axes, x.elem, x.space)
+        return Top(name)
+    if name in ("cumprod", "diff", "gradient", "ediff1d"):
+        x = args[0] if args else Top()
+        axis = get_axis(args, kwargs, 1)
+        if isinstance(x, Arr) and x.axes:
+            i = (len(x.axes) - 1) if axis is None else (axis % len(x.axes) if isinstance(axis, int) else None)
+            if i is not None:
+                I.usage(node, name, x.axes[i], "positional")
+                ax = list(x.axes)
+                if name in ("diff", "ediff1d"):
+                    ax[i] = Ax(f"{ax[i]}-1") if ax[i].symbolic else UNK
+                return Arr(ax, x.elem)
+        return Top(name)
+    if name in ("tile",):
+        x = args[0] if args else Top()
+        if isinstance(x, Arr):
+            return Arr([UNK] * max(len(x.axes), 1), x.elem)
+        return Top(name)
+    if name == "outer":
+        a, b = (args + [Top(), Top()])[:2]
+        if isinstance(a, Arr) and isinstance(b, Arr) and len(a.axes) == 1 and len(b.axes) == 1:
+            return Arr([a.axes[0], b.axes[0]], "f")
+        return Top(name)
+    if name == "trace":
+        x = args[0] if args else Top()
+        if isinstance(x, Arr) and len(x.axes) >= 2:
+            I.usage(node, "trace", x.axes[0], "pairing")
+            return Num("f") if len(x.axes) == 2 else Arr(x.axes[2:], x.elem)
+        return Top(name)
+    if name in ("triu", "tril"):
+        x = args[0] if args else Top()
+        if isinstance(x, Arr) and len(x.axes) >= 2:
+            I.usage(node, name, x.axes[-1], "positional")
+            I.usage(node, name, x.axes[-2], "positional")
+            return Arr(x.axes, x.elem)
+        return Top(name)
+    if name in ("argwhere", "flatnonzero"):
+        x = args[0] if args else Top()
+        if isinstance(x, Arr) and x.axes:
+            if name == "flatnonzero" or len(x.axes) == 1:
+                return Arr([Ax(f"sel({x.axes[0]})") if x.axes[0].symbolic else UNK] + ([Ax(len(x.axes))] if name == "argwhere" else []), "i", space=x.axes[0])
+            return Arr([UNK, Ax(len(x.axes))], "i")
+        return Top(name)
+    if name in ("logical_not", "isclose", "isinf", "signbit", "rint", "round", "around", "fix", "trunc", "reciprocal", "cbrt", "sin", "cos", "arctan", "sigmoid", "expit"):
+        x = args[0] if args else Top()
+        if name == "isclose" and len(args) >= 2:
+            r = I.broadcast(args[0], args[1], node, opname="cmp")
+            return Arr(r.axes, "b") if isinstance(r, Arr) else Num("b")
+        if isinstance(x, Arr):
+            return Arr(x.axes, "b" if name in ("logical_not", "isinf", "signbit") else "f")
+        if isinstance(x, Num):
+            return Num("b" if name in ("logical_not", "isinf", "signbit") else "f")
+        return Top(name)
+    if name in ("allclose", "array_equal", "may_share_memory", "shares_memory", "isscalar", "ndim"):
+        return Num("b")
+    if name in ("exp", "exp2", "expm1", "log2", "log10", "tanh", "arctanh", "sinh", "cosh"):
+        return unary_same(args[0]) if args else Top(name)
+    if name in ("searchsorted", "digitize"):
+        a, v = (args + [Top(), Top()])[:2]
+        src, q = (a, v) if name == "searchsorted" else (v, a)
+        if isinstance(q, Arr):
+            I.usage(node, name, src.axes[0] if isinstance(src, Arr) and src.axes else None, "positional")
+            return Arr(q.axes, "i", space=src.axes[0] if isinstance(src, Arr) and src.axes else None)
+        return Num("i")
+    if name == "bincount":
+        return Arr([UNK], "i")
+    if name in ("partition", "argpartition"):
+        x = args[0] if args else Top()
+        if isinstance(x, Arr) and x.axes:
+            I.usage(node, name, x.axes[-1], "positional")
+            return Arr(x.axes, "i" if name == "argpartition" else x.elem, x.axes[-1] if name == "argpartition" else None)
+        return Top(name)
+    if name in ("delete", "insert", "append"):
+        x = args[0] if args else Top()
+        axis = get_axis(args, kwargs, 3 if name == "insert" else 2)
+        if isinstance(x, Arr) and x.axes:
+            if axis is None:
+                return Arr([UNK], x.elem)
+            if isinstance(axis, int):
+                ax = list(x.axes)
+                I.usage(node, name, ax[axis % len(ax)], "positional")
+                ax[axis % len(ax)] = UNK
+                return Arr(ax, x.elem)
+        return Top(name)
+    if name in ("full_like",):
+        x = args[0] if args else Top()
+        return Arr(x.axes, x.elem) if isinstance(x, Arr) else Top(name)
+    if name in ("full",):
+        sh = shape_to_axes(args[0]) if args else None
+        return Arr(sh, elem_of_dtype(kwargs)) if sh is not None else Top(name)
+    if name in ("column_stack", "dstack"):
+        return Top(name)
+    if name == "tensordot":
+        return Top(name)
+    if name == "kron":
+        a, b = (args + [Top(), Top()])[:2]
+        if isinstance(a, Arr) and isinstance(b, Arr) and len(a.axes) == len(b.axes):
+            return Arr([product_ax([x, y]) for x, y in zip(a.axes, b.axes)], "f")
+        return Top(name)
+    if name in ("floor_divide", "mod", "remainder", "fmod", "hypot", "arctan2", "logaddexp", "fmax", "fmin", "logical_xor", "not_equal", "equal", "greater", "less", "greater_equal", "less_equal"):
+        if len(args) >= 2:
+            r = I.broadcast(args[0], args[1], node, opname="cmp" if name in ("not_equal", "equal", "greater", "less", "greater_equal", "less_equal", "logical_xor") else name)
+            return r
+        return Top(name)
+    if name in ("atleast_1d", "atleast_2d", "asfarray", "asanyarray", "require", "squeeze_"):
+        return args[0] if args else Top(name)
+    if name in ("mean_", ):
+        return Top(name)
+    if name == "meshgrid":
+        return Top(name)
+    if name in ("argmax_",):
+        return Top(name)
+    if name == "apply_along_axis":
+        return Top(name)
+    if name in ("newaxis",):
+        return NoneV()
     if name == "prod":
         return Num("i")
     if name == "import_array":
@@ -696,6 +838,20 @@ def call_arr_method(I, x, name, args, kwargs, node, fr):
         return call_np(I, "cumsum", [x] + list(args), kwargs, node, fr)
     if name == "nonzero":
         return nonzero(I, x, node)
+    if name in ("cumprod", "diff", "trace", "round", "flatten", "swapaxes", "repeat", "argsort", "clip", "take", "compress", "diagonal", "ptp", "argpartition", "partition", "searchsorted"):
+        if name == "swapaxes" and len(args) == 2 and all(isinstance(a, Num) and isinstance(a.const, int) for a in args):
+            ax = list(x.axes)
+            i, j = args[0].const % len(ax), args[1].const % len(ax)
+            ax[i], ax[j] = ax[j], ax[i]
+            return Arr(ax, x.elem, x.space)
+        if name == "diagonal" and len(x.axes) >= 2:
+            I.usage(node, "diagonal", x.axes[0], "pairing")
+            return Arr([x.axes[0]] + list(x.axes[2:]), x.elem)
+        if name in ("take", "compress"):
+            return Top("ndarray." + name)
+        return call_np(I, name, [x] + list(args), kwargs, node, fr)
+    if name in ("__len__",):
+        return Num("i", dimof=x.axes[0]) if x.axes else Num("i")
     return Top("ndarray." + name)
 
 
@@ -981,9 +1137,26 @@ def call_ext(I, target, args, kwargs, node, fr):
     if sym == "softmax":
         x = args[0] if args else Top()
         if isinstance(x, Arr) and len(x.axes) == 2:
+            axis = get_axis(args, kwargs, 1)
+            if mod.startswith("scipy"):
+                # scipy.special.softmax normalises over ALL axes unless axis is given
+                if axis is None:
+                    for a_ in x.axes:
+                        I.usage(node, "softmax", a_, "reduce")
+                    return Arr(x.axes, "f", tags=frozenset({"softmax"}))
+                if isinstance(axis, int):
+                    I.usage(node, "softmax", x.axes[axis % 2], "reduce")
+                    return Arr(x.axes, "f", tags=frozenset({"softmax"}))
+                return Top("softmax axis")
             I.usage(node, "softmax", x.axes[1], "reduce")
             return Arr(x.axes, "f", tags=frozenset({"softmax"}))
         return Top("softmax")
+    if sym == "logsumexp":
+        x = args[0] if args else Top()
+        return reduce_axes(I, x, get_axis(args, kwargs, 1), get_flag(kwargs, "keepdims"), node, "logsumexp", result_elem="f")
+    if sym in ("expit", "log_softmax"):
+        x = args[0] if args else Top()
+        return Arr(x.axes, "f") if isinstance(x, Arr) else Top(sym)
     if sym in ("pairwise_kernels", "pairwise_distances"):
         x = args[0] if args else Top()
         y = args[1] if len(args) > 1 else kwargs.get("Y")
